@@ -119,6 +119,16 @@ var c3BinOps = []string{"add", "sub", "mul", "udiv", "sdiv", "urem", "srem", "sh
 var c3Casts = []string{"trunc", "zext", "sext", "fptrunc", "fpext", "fptoui", "fptosi", "uitofp", "sitofp", "ptrtoint", "inttoptr", "bitcast", "addrspacecast"}
 var c3Preds = []enum.IPred{enum.IPredEQ, enum.IPredNE, enum.IPredUGT, enum.IPredUGE, enum.IPredULT, enum.IPredULE, enum.IPredSGT, enum.IPredSGE, enum.IPredSLT, enum.IPredSLE}
 
+var c3FPreds = []enum.FPred{enum.FPredFalse, enum.FPredOEQ, enum.FPredOGT, enum.FPredOGE, enum.FPredOLT, enum.FPredOLE, enum.FPredONE, enum.FPredORD,
+	enum.FPredUEQ, enum.FPredUGT, enum.FPredUGE, enum.FPredULT, enum.FPredULE, enum.FPredUNE, enum.FPredUNO, enum.FPredTrue}
+
+func c3CmpTy(t types.Type) types.Type {
+	if v, ok := t.(*types.VectorType); ok {
+		return &types.VectorType{Scalable: v.Scalable, Len: v.Len, ElemType: types.I1}
+	}
+	return types.I1
+}
+
 func core3Build(a []string) *ir.Func {
 	named := map[string]*types.StructType{}
 	ret := (&tyParser{s: a[0], named: named}).ty()
@@ -261,6 +271,35 @@ func core3Build(a []string) *ir.Func {
 				obj = &ir.InstPhi{Typ: in.args[0].ty}
 			case in.row == 44:
 				obj = &ir.InstFreeze{Typ: in.args[0].ty}
+			case in.row == 45:
+				obj = &ir.InstFNeg{Typ: in.args[0].ty}
+			case in.row >= 46 && in.row <= 50:
+				t := in.args[0].ty
+				switch in.row {
+				case 46:
+					obj = &ir.InstFAdd{Typ: t}
+				case 47:
+					obj = &ir.InstFSub{Typ: t}
+				case 48:
+					obj = &ir.InstFMul{Typ: t}
+				case 49:
+					obj = &ir.InstFDiv{Typ: t}
+				case 50:
+					obj = &ir.InstFRem{Typ: t}
+				}
+			case in.row >= 51 && in.row <= 66:
+				obj = &ir.InstFCmp{Pred: c3FPreds[in.row-51], Typ: c3CmpTy(in.args[0].ty)}
+			case in.row == 67:
+				obj = &ir.InstExtractElement{Typ: in.args[0].ty.(*types.VectorType).ElemType}
+			case in.row == 68:
+				obj = &ir.InstInsertElement{Typ: in.args[0].ty.(*types.VectorType)}
+			case in.row == 69:
+				xt, mt := in.args[0].ty.(*types.VectorType), in.args[2].ty.(*types.VectorType)
+				obj = &ir.InstShuffleVector{Typ: &types.VectorType{Scalable: mt.Scalable, Len: mt.Len, ElemType: xt.ElemType}}
+			case in.row == 70:
+				a := &ir.InstAlloca{ElemType: in.args[0].ty}
+				a.Type()
+				obj = a
 			default:
 				panic("harness: bad row")
 			}
@@ -322,6 +361,27 @@ func core3Build(a []string) *ir.Func {
 			}
 		case *ir.InstFreeze:
 			x.X = operand(as[0].ty, as[0].op)
+		case *ir.InstFNeg:
+			x.X = operand(as[0].ty, as[0].op)
+		case *ir.InstFAdd:
+			x.X, x.Y = operand(as[0].ty, as[0].op), operand(as[0].ty, as[1].op)
+		case *ir.InstFSub:
+			x.X, x.Y = operand(as[0].ty, as[0].op), operand(as[0].ty, as[1].op)
+		case *ir.InstFMul:
+			x.X, x.Y = operand(as[0].ty, as[0].op), operand(as[0].ty, as[1].op)
+		case *ir.InstFDiv:
+			x.X, x.Y = operand(as[0].ty, as[0].op), operand(as[0].ty, as[1].op)
+		case *ir.InstFRem:
+			x.X, x.Y = operand(as[0].ty, as[0].op), operand(as[0].ty, as[1].op)
+		case *ir.InstFCmp:
+			x.X, x.Y = operand(as[0].ty, as[0].op), operand(as[0].ty, as[1].op)
+		case *ir.InstExtractElement:
+			x.X, x.Index = operand(as[0].ty, as[0].op), operand(as[1].ty, as[1].op)
+		case *ir.InstInsertElement:
+			x.X, x.Elem, x.Index = operand(as[0].ty, as[0].op), operand(as[1].ty, as[1].op), operand(as[2].ty, as[2].op)
+		case *ir.InstShuffleVector:
+			x.X, x.Y, x.Mask = operand(as[0].ty, as[0].op), operand(as[1].ty, as[1].op), operand(as[2].ty, as[2].op)
+		case *ir.InstAlloca:
 		case *ir.InstTrunc:
 			x.From = operand(as[0].ty, as[0].op)
 		case *ir.InstZExt:
